@@ -63,6 +63,24 @@ pub fn check_input(inp: &V4, class: &str, rep: &mut Report) {
         (Ok(a), Ok(b)) => (a, b),
     };
     if a.0 != b.0 || a.1 != b.1 || a.2 != b.2 {
+        // documented limit of the 32-bit version (known finding babai-i32-quotient-saturation):
+        // certified in exact integer arithmetic - some coefficient of the exact first quotient
+        // round((F f* + G g*)/(f f* + g g*)) lies outside the i32 range, so `as i32` saturates
+        {
+            if let Some(basis) = basis_adjugate(f, g) {
+                let m = quotient_max_abs(f, g, cf, cg, &basis);
+                if m > 2147483648.0 * 1.000001 {
+                    rep.count("i32_quotient_saturations", 1);
+                    rep.stat_max("max_saturating_quotient_log2", m.log2());
+                    rep.violation(
+                        "babai-i32-quotient-saturation",
+                        format!("n={} ({}): exact first quotient has a coefficient of magnitude 2^{:.2} > 2^31: babai_reduce_i32 casts it with a saturating `as i32` and returns ok={} with a wrong pair; babai_reduce_bigint returns ok={} (f={:?} g={:?} F={:?} G={:?})", n, class, m.log2(), a.0, b.0, &f[..n.min(6)], &g[..n.min(6)], &cf[..n.min(4)], &cg[..n.min(4)]),
+                        replay(),
+                    );
+                    return;
+                }
+            }
+        }
         rep.violation(
             "babai:versions-disagree",
             format!("n={} ({}): babai_reduce_i32 -> ok={} and babai_reduce_bigint -> ok={} return different results (first F' coefficients {:?} vs {:?})", n, class, a.0, b.0, &a.1[..n.min(4)], &b.1[..n.min(4)]),
@@ -260,6 +278,31 @@ fn big_adjugate(a: &[BigInt]) -> (Vec<BigInt>, BigInt) {
         lifted[2 * k] = x;
     }
     (big_negamul(&a_neg, &lifted), r)
+}
+
+/// Adjugate A and rho = D A of D = f f* + g g* (exact).
+fn basis_adjugate(f: &[i64], g: &[i64]) -> Option<(Vec<BigInt>, BigInt)> {
+    use num::Zero;
+    let den: Vec<i128> = spec::negamul_z(f, &adjoint(f)).iter().zip(spec::negamul_z(g, &adjoint(g)).iter()).map(|(a, b)| a + b).collect();
+    let d: Vec<BigInt> = den.iter().map(|&x| BigInt::from(x)).collect();
+    let (adj, rho) = big_adjugate(&d);
+    if rho.is_zero() {
+        None
+    } else {
+        Some((adj, rho))
+    }
+}
+
+/// Largest magnitude among the coefficients of the exact quotient (F f* + G g*)/(f f* + g g*)
+/// (exact integer arithmetic; only the final division is done in floating point).
+fn quotient_max_abs(f: &[i64], g: &[i64], cf: &[i64], cg: &[i64], basis: &(Vec<BigInt>, BigInt)) -> f64 {
+    use num::{Signed, ToPrimitive};
+    let num_: Vec<i128> = spec::negamul_z(cf, &adjoint(f)).iter().zip(spec::negamul_z(cg, &adjoint(g)).iter()).map(|(a, b)| a + b).collect();
+    let nn: Vec<BigInt> = num_.iter().map(|&x| BigInt::from(x)).collect();
+    let q = big_negamul(&nn, &basis.0);
+    let rho = basis.1.abs();
+    let scale = BigInt::from(1u64 << 20);
+    q.iter().map(|x| ((x.abs() * &scale) / &rho).to_f64().unwrap_or(f64::INFINITY) / (1u64 << 20) as f64).fold(0.0, f64::max)
 }
 
 /// EXACT certificate of a rounding-tie state, for any n and any basis: with D = f f* + g g*,
@@ -846,10 +889,24 @@ pub fn witness() -> V4 {
     (vec![1, 1], vec![1, -1], vec![1, 0], vec![1, 0])
 }
 
+pub fn saturation_witness() -> V4 {
+    let n = 512;
+    let mut f = vec![0i64; n];
+    f[..4].copy_from_slice(&[1, 1, -1, -1]);
+    let mut g = vec![0i64; n];
+    g[..5].copy_from_slice(&[0, 0, 2, 4, 2]);
+    let cf: Vec<i64> = (0..n as i64).map(|i| (if i % 2 == 0 { -12_000_000 } else { 12_000_000 }) + (i * 7919) % 2001 - 1000).collect();
+    let cg: Vec<i64> = (0..n as i64).map(|i| (if i % 2 == 0 { 6_000_000 } else { -6_000_000 }) + (i * 104729) % 2001 - 1000).collect();
+    (f, g, cf, cg)
+}
+
 pub fn synthetic(ctx: &Ctx, rep: &mut Report) {
     // the committed witness of the known finding first
     check_input(&witness(), "committed-witness", rep);
     check_input(&(vec![2, 0], vec![0, 0], vec![1, 0], vec![0, 0]), "committed-witness-2", rep);
+    // committed witness of the second known finding (babai-i32-quotient-saturation): a basis with
+    // the double factor (1 + x)^2 and an alternating (F,G) of amplitude 1.2e7 < 2^24
+    check_input(&saturation_witness(), "committed-witness-saturation", rep);
     // (F,G) = 0 is inside the stated domain ("every (F,G) whose coefficients stay below 2^24"):
     // it is already reduced, both versions must return it unchanged
     {
@@ -918,6 +975,84 @@ pub fn synthetic(ctx: &Ctx, rep: &mut Report) {
             rep.count("cross_size_basis_walks", 1);
         }
         rep.require("cross_size_basis_walks", 3);
+    }
+    // ILL-CONDITIONED bases with large, structured (F,G): f and g share the factor (1 + x) (both
+    // nearly vanish at the root closest to -1), F and G carry an alternating-sign pattern of
+    // amplitude c < 2^24 aligned with that root: the first quotient is amplified by up to n/2 and
+    // reaches 2^29 .. 2^31 although every input coefficient is below 2^24
+    {
+        let mut rng = rng_for(ctx.seed, "c17-ill-conditioned");
+        for round in 0..ctx.sz(36, 600) {
+            let n = [256usize, 512, 1024][round % 3];
+            let small = |rng: &mut ChaCha20Rng, terms: usize| -> Vec<i64> {
+                let mut v = vec![0i64; n];
+                for _ in 0..terms {
+                    v[rng.gen_range(0..4)] = rng.gen_range(-2i64..=2);
+                }
+                if v.iter().all(|&x| x == 0) {
+                    v[0] = 1;
+                }
+                v
+            };
+            let mut one_plus_x = vec![0i64; n];
+            one_plus_x[0] = 1;
+            one_plus_x[1] = 1;
+            let to64 = |v: Vec<i128>| v.iter().map(|&x| x as i64).collect::<Vec<i64>>();
+            let f = to64(spec::negamul_z(&one_plus_x, &small(&mut rng, 2)));
+            let g = to64(spec::negamul_z(&one_plus_x, &small(&mut rng, 2)));
+            let (f, g) = if (round / 3) % 6 == 5 {
+                // a double factor (1 + x)^2: the amplification grows from ~n to ~n^3
+                (to64(spec::negamul_z(&one_plus_x, &f)), to64(spec::negamul_z(&one_plus_x, &g)))
+            } else {
+                (f, g)
+            };
+            if f.iter().all(|&x| x == 0) || g.iter().all(|&x| x == 0) {
+                continue;
+            }
+            // amplitude chosen from the EXACT quotient of the unit pattern so that the largest
+            // quotient coefficient lands on a chosen target: below the 30-bit modulus, between the
+            // modulus and 2^31 (both signs), and (few) beyond 2^31 - the documented limit of the
+            // 32-bit version, see known finding babai-i32-quotient-saturation
+            let basis = match basis_adjugate(&f, &g) {
+                Some(b) => b,
+                None => continue,
+            };
+            let unit_f: Vec<i64> = (0..n).map(|i| if i % 2 == 0 { 1000 } else { -1000 }).collect();
+            let unit_g: Vec<i64> = (0..n).map(|i| if i % 2 == 0 { -500 } else { 500 }).collect();
+            let per_unit = quotient_max_abs(&f, &g, &unit_f, &unit_g, &basis) / 1000.0;
+            if !(per_unit > 0.0) {
+                continue;
+            }
+            let target = [2f64.powf(28.5), 2f64.powf(29.7), 2f64.powf(30.3), 2f64.powf(30.9), 2f64.powf(30.6), 2f64.powf(31.8)][(round / 3) % 6];
+            let mut c = (target / per_unit) as i64;
+            if c < 2000 {
+                // doubly ill-conditioned basis: even tiny (F,G) overflow; keep a few as witnesses
+                c = 2000;
+            }
+            if c > 16_000_000 {
+                c = 16_000_000;
+            }
+            let noise = (c / 4000).max(1);
+            let c = if round % 2 == 0 { c } else { -c };
+            let cf: Vec<i64> = (0..n).map(|i| (if i % 2 == 0 { c } else { -c }) + rng.gen_range(-noise..=noise)).collect();
+            let cg: Vec<i64> = (0..n).map(|i| (if i % 2 == 0 { -c } else { c }) / 2 + rng.gen_range(-noise..=noise)).collect();
+            if cf.iter().chain(cg.iter()).any(|x| x.abs() >= 1 << 24) {
+                continue;
+            }
+            let m = quotient_max_abs(&f, &g, &cf, &cg, &basis);
+            rep.stat_max("ill_conditioned_max_quotient_log2", m.log2());
+            if m >= 1073754113.0 && m < 2147483648.0 {
+                rep.count("ill_conditioned_quotient_between_modulus_and_2^31", 1);
+            } else if m >= 2147483648.0 {
+                rep.count("ill_conditioned_quotient_beyond_2^31", 1);
+            } else if m >= 268435456.0 {
+                rep.count("ill_conditioned_quotient_2^28_to_modulus", 1);
+            }
+            check_input(&(f, g, cf, cg), "ill-conditioned-basis-alternating-FG", rep);
+            rep.count("ill_conditioned_inputs", 1);
+        }
+        rep.require("ill_conditioned_inputs", 20);
+        rep.require("ill_conditioned_quotient_between_modulus_and_2^31", 6);
     }
     // near ties at production amplitude (see near_tie_input)
     let deltas = [2e-10f64, 5e-10, 1e-9, 2e-9, 4e-9, 1.6e-8, -2e-10, -5e-10, -1e-9, -2e-9, -4e-9, -1.6e-8];
